@@ -50,8 +50,39 @@ async fn answer(s: &mut BiStream) -> String {
 
 /// a well-behaved pub/sub round trip on (ns, tp) through the client library
 async fn probe_pubsub(addr: SocketAddr, certs: &Certs, ns: &str, tp: &str) -> String {
+    match client(addr, certs, BackoffStrategy::constant().with_max_attempts(0)).await {
+        Ok(c) => probe_pubsub_on(&c, ns, tp).await,
+        Err(e) => format!("FAILED:{}", format!("{e}").chars().take(60).collect::<String>().replace(' ', "_")),
+    }
+}
+
+/// a pub/sub round trip on topic /ns/tp over raw streams of an existing QUIC connection
+async fn probe_raw_on(conn: &quinn::Connection, ns: &str, tp: &str) -> String {
     let r = async {
-        let client = client(addr, certs, BackoffStrategy::constant().with_max_attempts(0)).await?;
+        let mut sub = raw_stream(conn).await?;
+        sub.send(reg_frame("RS", ns, tp)).await?;
+        let a = answer(&mut sub).await;
+        if a != "Ok" { return Ok::<_, anyhow::Error>(format!("FAILED:subscriber_{a}")); }
+        tokio::time::sleep(Duration::from_millis(40)).await;
+        let mut publ = raw_stream(conn).await?;
+        publ.send(reg_frame("RP", ns, tp)).await?;
+        let a = answer(&mut publ).await;
+        if a != "Ok" { return Ok(format!("FAILED:publisher_{a}")); }
+        publ.send(Frame::Message(selium_protocol::MessagePayload { headers: None, message: bytes::Bytes::from_static(b"probe") })).await?;
+        match tokio::time::timeout(Duration::from_millis(1500), sub.next()).await {
+            Ok(Some(Ok(Frame::Message(m)))) if &m.message[..] == b"probe" => Ok("ok".to_string()),
+            other => Ok(format!("FAILED:{}", format!("{other:?}").chars().take(60).collect::<String>().replace(' ', "_"))),
+        }
+    };
+    match tokio::time::timeout(Duration::from_secs(6), r).await {
+        Err(_) => "FAILED:hang".into(),
+        Ok(Err(e)) => format!("FAILED:{}", format!("{e}").chars().take(60).collect::<String>().replace(' ', "_")),
+        Ok(Ok(s)) => s,
+    }
+}
+
+async fn probe_pubsub_on(client: &selium::Client, ns: &str, tp: &str) -> String {
+    let r = async {
         let topic = format!("/{ns}/{tp}");
         let mut sub = client.subscriber(&topic).with_decoder(StringCodec).open().await?;
         tokio::time::sleep(Duration::from_millis(40)).await;
@@ -246,7 +277,13 @@ async fn run_case(addr: SocketAddr, certs: &Certs, t: &[&str]) -> anyhow::Result
             let client = client(addr, certs, BackoffStrategy::constant().with_max_attempts(0)).await?;
             let mut publ = client.publisher(&format!("/{ns}/{tp}")).with_encoder(StringCodec).open().await?;
             let chunk = "x".repeat(64 * 1024);
-            for _ in 0..40 { let _ = tokio::time::timeout(Duration::from_millis(300), publ.send(chunk.clone())).await; }
+            // (until nothing moves any more: the subscriber's stream window, the router's buffers and the publisher's own
+            // stream window are all full)
+            let mut stuck = 0;
+            for _ in 0..96 {
+                if tokio::time::timeout(Duration::from_millis(300), publ.send(chunk.clone())).await.is_err() { stuck += 1; } else { stuck = 0; }
+                if stuck >= 4 { break; }
+            }
             // queue more registrations on the stalled topic than its channel holds
             let mut conns = vec![];
             let mut queued = vec![];
@@ -263,8 +300,14 @@ async fn run_case(addr: SocketAddr, certs: &Certs, t: &[&str]) -> anyhow::Result
             // a different topic must be unaffected
             let (ns2, tp2) = fresh();
             let probe = probe_pubsub(addr, certs, &ns2, &tp2).await;
+            // … also for a peer that itself queued up for the stalled topic (same connection as the last batch of
+            // over-bound registrations), and for the client whose publisher is blocked on the stalled topic
+            let (ns3, tp3) = fresh();
+            let same = match conns.last() { Some(c) => probe_raw_on(c, &ns3, &tp3).await, None => "ok".into() };
+            let (ns4, tp4) = fresh();
+            let flooder = probe_pubsub_on(&client, &ns4, &tp4).await;
             drop(queued); drop(stalled); drop(conns);
-            Ok(format!("{a} probe={probe}"))
+            Ok(format!("{a} probe={probe} queued-peer={same} blocked-publisher={flooder}"))
         }
         other => anyhow::bail!("bad registry case {other}"),
     }
@@ -319,10 +362,10 @@ pub fn run(cfg: &Cfg) {
             Ok(Err(e)) => (format!("ERROR {}", format!("{e:?}").replace('\n', " ").chars().take(160).collect::<String>()), Err(format!("{e}"))),
             Ok(Ok(line)) => {
                 let mut m = Ok(());
-                let probe_ok = line.ends_with("probe=ok");
+                let probe_ok = line.split(' ').filter(|x| x.contains('=') && ["probe", "queued-peer", "blocked-publisher"].contains(&x.split('=').next().unwrap())).all(|x| x.ends_with("=ok"));
                 if !probe_ok { dead = line.contains("hang"); m = Err(format!("C11/C17: after `{}` well-behaved clients are no longer served: {line}", t[1..].join(" ").chars().take(80).collect::<String>())); }
                 if m.is_ok() {
-                    let answers: Vec<&str> = line.split(' ').filter(|x| !x.starts_with("probe=")).collect();
+                    let answers: Vec<&str> = line.split(' ').filter(|x| !x.starts_with("probe=") && !x.starts_with("queued-peer=") && !x.starts_with("blocked-publisher=")).collect();
                     for a in &answers {
                         if *a == "timeout" { m = Err(format!("C11: a stream was neither served nor refused nor closed: {line}")); }
                     }
